@@ -74,6 +74,11 @@ func genC04Plain(seed uint64, run int, tier string) *Plan {
 		ExpireMs: pick(r, int64(200), 1000, 60000),
 	}
 	p.Cfg.Fine = fineTier(tier, seed, 15, 3)
+	if p.Cfg.Store == "file" {
+		// a slow disk: every file operation of a commit takes simulated time, so timers (expiry ticks,
+		// deadlines) fire in the middle of commits
+		p.Cfg.DiskLatMs = pick(newRNG(seed, 0xd15c), int64(0), 0, 1, 5, 20)
+	}
 	keys := 1 + r.IntN(3)
 	ntasks := 2 + r.IntN(3)
 	tag := 0
